@@ -278,3 +278,34 @@ func TestPropRoundTrip(t *testing.T) {
 		return Case{Spec: *s, Cycles: rapid.IntRange(0, 3).Draw(t, "cycles"), ReadMode: gen.DrawSourceMode(t, "readmode")}
 	})
 }
+
+// TestLargeBodies: bodies of 2^k and 2^k + 1 octets for k = 16..24 (quick) / ..26 (thorough), the
+// sizes where width-, chunk- or cap-dependent code paths of a reader or writer change over (the
+// quantifier's "large"; 2^32 is out of reach of memory). Each one goes through the same oracle
+// (write, read through a plain or Len-capable reader, compare, re-serialise to the fixpoint).
+func TestLargeBodies(t *testing.T) {
+	maxK := vh.Scale(24, 26)
+	n := 0
+	for k := 16; k <= maxK; k++ {
+		for _, d := range []int{0, 1} {
+			if d == 0 && k < 20 && k != 16 {
+				continue
+			}
+			for vi, ver := range []string{"b1", "b2"} {
+				if k >= 22 && (k+d+vi)%2 == 0 {
+					continue // the largest ones: one version per size, alternating
+				}
+				s := bundlekit.Spec{Version: ver, Primary: "https://a.example/large",
+					Exchanges: []bundlekit.ExSpec{
+						{URL: "https://a.example/large", Status: 200, Headers: []gen.HeaderKV{{Name: "Content-Type", Values: []string{"application/octet-stream"}}}, BodyLen: 1<<uint(k) + d, BodyTag: uint64(k)},
+						{URL: "https://a.example/after", Status: 200, Headers: []gen.HeaderKV{{Name: "Content-Type", Values: []string{"text/plain"}}}, BodyLen: 5, BodyTag: 9},
+					}}
+				n++
+				if !prop.One(t, Case{Spec: s, Cycles: 1, ReadMode: []int{0, 4096, 1 << 20}[(k+d)%3]}) {
+					return
+				}
+			}
+		}
+	}
+	vh.Exhaustive("roundtrip", fmt.Sprintf("large bodies: 2^k and 2^k+1 octets for k=16..%d, versions b1/b2 (alternating above 2^22): %d bundles", maxK, n))
+}
